@@ -52,8 +52,19 @@ def cmd_replay(a):
     rep = json.load(open(a.path))
     if hasattr(mod, 'replay'):
         return mod.replay(rep)
-    print(json.dumps(rep, indent=1)[:4000])
-    return 0
+    # generic replay: run the recorded failing input through the real implementation's oracle again
+    print(json.dumps({k: rep.get(k) for k in ('property', 'kind', 'signature', 'message', 'no_longer_checks')}, indent=1)[:3000])
+    case = rep.get('case')
+    spec = getattr(mod, 'SPEC', None)
+    if case is None or spec is None or not getattr(spec, 'impl_script', None):
+        return 0
+    wd = core.workdir(a.pid, 'replay')
+    res, log = core.run_impl(spec.impl_script, [case], wd, jobs=1)
+    if res is None:
+        print('implementation run failed:\n' + log[-2000:])
+        return 1
+    print('oracle on the recorded input now: ok=%s %s' % (res[0].get('ok'), res[0].get('msg', '')[:1500]))
+    return 0 if res[0].get('ok', True) else 1
 
 
 def manifest():
